@@ -6,6 +6,7 @@ package block
 import (
 	"bytes"
 	"context"
+	"encoding/binary"
 	crand "crypto/rand"
 	"errors"
 	"fmt"
@@ -350,6 +351,9 @@ func zzNewEnv(initialHeight uint64) *zzEnv {
 	e := &zzEnv{priv: priv, pub: pub, signer: sg, addr: addr, chainID: "zzchain",
 		store: zzNewStore(), exec: &zzExec{}, seq: &zzSeq{}, hb: &zzHB{}, db: &zzDB{}}
 	e.gen = genesis.Genesis{ChainID: e.chainID, GenesisDAStartTime: zzsym.TimeOf(zzTimeNs("genesistime")), InitialHeight: initialHeight, ProposerAddress: addr}
+	// make the digest of the empty tx list (the constant dataHashForEmptyTxs) a
+	// known sha256 image for the engine
+	_ = new(types.Data).DACommitment()
 	e.cfg = config.Config{}
 	e.cfg.Node.BlockTime.Duration = time.Second
 	e.cfg.Node.LazyBlockInterval.Duration = 60 * time.Second
@@ -616,5 +620,12 @@ func zzHeights() (uint64, uint64) {
 	H := zzsym.U64("H")
 	zzsym.Assume(H >= I && H <= 1<<41)
 	return I, H
+}
+
+
+func zzLE(x uint64) []byte {
+	b := make([]byte, 8)
+	binary.LittleEndian.PutUint64(b, x)
+	return b
 }
 
